@@ -126,6 +126,12 @@ func c06EncInstr(i *ir.Instruction) string {
 type c06Universe struct {
 	all     []operand.Op
 	byClass map[string][]operand.Op // lower-case operand type name → operands that match it
+	// derived near misses: (type:kind) pairs of the catalogue present in the universe, operands they added, types
+	// without catalogue
+	derivedPairs      map[string]int
+	derivedPairsTotal int
+	derivedAdded      int
+	underivable       []string
 }
 
 func c06BuildUniverse(t *optabAST) *c06Universe {
@@ -201,6 +207,82 @@ func c06BuildUniverse(t *optabAST) *c06Universe {
 		add(operand.Rel(v))
 	}
 	add(operand.LabelRef("loop"), operand.LabelRef(""), operand.LabelRef("1"))
+	// systematically derived near misses (round 5): for EVERY operand type a member of the class with every attribute
+	// present and every one-attribute change of it (c05derive.go: base / index absent, narrower, of another register
+	// kind or width, scale, symbol, displacement; registers of every other width and kind, other views and neighbours
+	// of the fixed registers; constants of every other type and just outside the range; branch targets just outside
+	// the 8-bit range), once made of physical and once of virtual registers
+	u.derivedPairs = map[string]int{}
+	have := map[string]bool{}
+	for _, op := range u.all {
+		have[c06EncOp(op)] = true
+	}
+	rot := 0
+	physOf := func(f *reg.Family, size uint, from int) reg.Register {
+		var rs []reg.Register
+		for _, p := range f.Registers() {
+			if p.Size() == size && p.Mask() != reg.S8H.Mask() && p != reg.Register(reg.RSP) {
+				rs = append(rs, p)
+			}
+		}
+		rot++
+		return rs[(from+rot*5)%len(rs)]
+	}
+	physSrc := &c05RegSrc{
+		gp:   func(size uint) reg.Register { return physOf(reg.GeneralPurpose, size, 3) },
+		gp8h: func() reg.Register { rot++; return []reg.Register{reg.AH, reg.CH, reg.DH, reg.BH}[rot%4] },
+		vec:  func(size uint) reg.Register { return physOf(reg.Vector, size, 7) },
+		k:    func() reg.Register { return physOf(reg.Opmask, 8, 1) },
+	}
+	virtSrc := &c05RegSrc{
+		gp: func(size uint) reg.Register {
+			switch size {
+			case 1:
+				return col.GP8L()
+			case 2:
+				return col.GP16()
+			case 4:
+				return col.GP32()
+			}
+			return col.GP64()
+		},
+		gp8h: func() reg.Register { return col.GP8H() },
+		vec: func(size uint) reg.Register {
+			switch size {
+			case 16:
+				return col.XMM()
+			case 32:
+				return col.YMM()
+			}
+			return col.ZMM()
+		},
+		k: func() reg.Register { return col.K() },
+	}
+	for _, n := range t.OprndTypes {
+		name := strings.ToLower(strings.TrimPrefix(n, "oprndtype"))
+		if c05Family(name) == "" {
+			u.underivable = append(u.underivable, name)
+			continue
+		}
+		u.derivedPairsTotal += len(c05DeriveKinds(name))
+		for _, src := range []*c05RegSrc{physSrc, virtSrc} {
+			good := c05CanonMember(name, src)
+			if good == nil {
+				continue
+			}
+			good, muts := c05Derive(name, good, src)
+			for _, m := range append([]c05Mutant{{"member", good}}, muts...) {
+				if m.what != "member" {
+					u.derivedPairs[name+":"+m.what]++
+				}
+				if tok := c06EncOp(m.op); !have[tok] {
+					have[tok] = true
+					add(m.op)
+					u.derivedAdded++
+				}
+			}
+		}
+	}
 	// index by class through the REAL predicate (used only to pick samples; the
 	// verdict on each sample is made by comparing model and implementation)
 	for i, n := range t.OprndTypes {
@@ -212,6 +294,31 @@ func c06BuildUniverse(t *optabAST) *c06Universe {
 		}
 	}
 	return u
+}
+
+// c06DeriveSrc draws the registers of a derived operand from the universe: the members of the register classes
+// (physical and virtual alike).
+func c06DeriveSrc(r *rng, u *c06Universe) *c05RegSrc {
+	gpName := map[uint]string{1: "r8", 2: "r16", 4: "r32", 8: "r64"}
+	vecName := map[uint]string{16: "xmm", 32: "ymm", 64: "zmm"}
+	fromClass := func(name string, ok func(reg.Register) bool) reg.Register {
+		pool := u.byClass[name]
+		for tries := 0; tries < 200 && len(pool) > 0; tries++ {
+			if x, isReg := pick(r, pool).(reg.Register); isReg && ok(x) {
+				return x
+			}
+		}
+		return nil
+	}
+	any := func(reg.Register) bool { return true }
+	return &c05RegSrc{
+		gp: func(size uint) reg.Register {
+			return fromClass(gpName[size], func(x reg.Register) bool { return x.Mask() != reg.S8H.Mask() || size != 1 })
+		},
+		gp8h: func() reg.Register { return pick(r, []reg.Register{reg.AH, reg.CH, reg.DH, reg.BH}) },
+		vec:  func(size uint) reg.Register { return fromClass(vecName[size], any) },
+		k:    func() reg.Register { return fromClass("k", any) },
+	}
 }
 
 func c06Match(t uint8, op operand.Op) (res string) {
@@ -554,6 +661,10 @@ func init() {
 				}
 			}
 			stats["universe_operands"] = len(u.all)
+			stats["universe_derived_operands"] = u.derivedAdded
+			stats["universe_derived_pairs"] = len(u.derivedPairs)
+			stats["universe_derived_pairs_total"] = u.derivedPairsTotal
+			stats["universe_types_without_catalogue"] = len(u.underivable)
 			stats["class_checks"] = nclass
 			stats["class_checks_true"] = ntrue
 			// (i') the suffix sets of every suffix class code (0 and the codes past the end included): what
@@ -861,6 +972,7 @@ func init() {
 			return x.resp
 		}
 
+		derivedCalled := map[string]int{}
 		sample := func(fm *optabForm) ([]operand.Op, bool) {
 			var ops []operand.Op
 			for j := 0; j < fm.Arity && j < len(fm.Operands); j++ {
@@ -952,6 +1064,21 @@ func init() {
 					mut := append([]operand.Op(nil), ops...)
 					mut[j] = pick(r, cands)
 					call(fn, mut, "sibling", true)
+				}
+				// derived near miss: one operand replaced by a one-attribute change of a member of its class (the
+				// catalogue of c05derive.go, registers drawn from the universe's sources)
+				if len(ops) > 0 {
+					j := r.intn(len(ops))
+					if j < len(fm.Operands) {
+						tn := typeName(fm.Operands[j].Type)
+						if _, muts := c05Derive(tn, ops[j], c06DeriveSrc(r, u)); len(muts) > 0 {
+							m := pick(r, muts)
+							mut := append([]operand.Op(nil), ops...)
+							mut[j] = m.op
+							call(fn, mut, "derive", true)
+							derivedCalled[tn+":"+m.what]++
+						}
+					}
 				}
 				// near misses: replace / swap for everybody; drop / extra for variadic functions in both tiers
 				nm := 2
@@ -1083,6 +1210,7 @@ func init() {
 			swept++
 		}
 		stats["functions_swept"] = swept
+		stats["derive_pairs_called"] = len(derivedCalled)
 		stats["operand_tuples"] = tuples
 		stats["doc_checks_on_functions_with_fixed_class"] = fixedDocRows
 		stats["histogram"] = hist
